@@ -177,6 +177,31 @@ def gen_config(r: random.Random, profile: str = "valid") -> Dict[str, Any]:
         split_into_chain(r, cfg, name, eff, ("from", "to"), ("from", "to"), "a",
                          shared_parent="SHARED_A" if r.random() < 0.3 else None)
         cfg["simulation"]["agents"].append(name)
+    # ---- groups that extend another *instantiated* group, listed before or after it
+    for lst, count_key, tag in ((cfg["simulation"]["markets"], "numMarkets", "DM"), (cfg["simulation"]["agents"], "numAgents", "DA")):
+        if r.random() < 0.2:
+            par = r.choice(lst)
+            try:
+                pst = ref_resolve(cfg, par, ("from", "to"))
+            except Exception:
+                continue
+            d: Dict[str, Any] = {"extends": par, "prefix": f"{tag.lower()}_"}
+            if count_key in pst:
+                if r.random() < 0.6:
+                    d[count_key] = r.choice([1, 2, 4])
+            else:
+                u = r.random()
+                if u < 0.5:
+                    lo = r.choice([0, 2])
+                    d["from"], d["to"] = lo, lo + r.choice([0, 1, 3])
+                elif u < 0.7:
+                    d[count_key] = r.choice([1, 3])
+            if r.random() < 0.4 and tag == "DA":
+                d["cashAmount"] = 4321
+            cfg[tag] = d
+            lst.insert(r.randrange(len(lst) + 1), tag)
+            if tag == "DM":
+                market_groups.append(tag)
     # ---- sessions (legacy spellings now and then)
     for s in range(r.randint(1, 3)):
         ses: Dict[str, Any] = {"sessionName": r.choice([s, f"ses{s}"]), "iterationSteps": r.randint(1, 4),
@@ -567,6 +592,28 @@ class ConfigPlugin(Plugin):
                     diff = {k: (b.get(k), st.get(k)) for k in set(b) | set(st) if b.get(k) != st.get(k)}
                     mon.viol("C18", "effective_settings", {"entity": e, "differences(got,want)": repr(diff)[:400]})
                 mon.probe("c18_event_checked")
+
+        # ---- resolving once more on the dictionary the runner was given yields what the user wrote: the
+        # expansion of one entry may not eat keys of another (a second runner on the same settings, or a group
+        # listed after a group that extends it, would see something else)
+        from pams.utils.json_extends import json_extends
+        live = mon.ext.get("cfg")
+        if live is not None:
+            todo = [(g, ("from", "to")) for g in cfg["simulation"]["markets"] + cfg["simulation"]["agents"]]
+            for s in cfg["simulation"]["sessions"]:
+                todo += [(e, ("numMarkets", "from", "to", "prefix")) for e in s.get("events", []) if not e.startswith("__tap")]
+            for g, excl in todo:
+                if g not in live:
+                    continue
+                try:
+                    got = json_extends(whole_json=live, parent_name=g, target_json=live[g], excludes_fields=list(excl))
+                    want = ref_resolve(cfg, g, excl)
+                except Exception:
+                    continue
+                if got != want:
+                    diff = {k: (got.get(k), want.get(k)) for k in set(got) | set(want) if got.get(k) != want.get(k)}
+                    mon.viol("C18", "resolution_changed_by_setup", {"entry": g, "differences(got,want)": repr(diff)[:400]})
+            mon.probe("c18_resolved_again_after_setup")
 
     def setup_failed(self, mon, err):
         pass
